@@ -49,7 +49,10 @@ func (g *xgen) index(d int) string {
 	case 2:
 		return fmt.Sprintf("(%s + 0)", g.scalar())
 	case 3:
-		return fmt.Sprintf("(%s %% 3), %d", g.expr(d-1), g.r.Intn(2)) // multi-dimensional: not in the fragment (IndexMulti) -> unmod
+		if g.r.Intn(12) == 0 {
+			return fmt.Sprintf("(%s %% 3), %d", g.expr(d-1), g.r.Intn(2)) // multi-dimensional: not in the fragment (IndexMulti) -> unmod
+		}
+		return fmt.Sprintf("(%s - 2)", g.scalar())
 	}
 	return fmt.Sprintf("(%s %% 4 + 1)", g.scalar())
 }
@@ -111,9 +114,9 @@ func (g *xgen) expr(d int) string {
 		}
 		return fmt.Sprintf("(%s + %s)", a, b)
 	case 6:
-		return fmt.Sprintf("(-%s)", a)
+		return fmt.Sprintf("(- %s)", a)
 	case 7:
-		return fmt.Sprintf("(+%s)", a)
+		return fmt.Sprintf("(+ %s)", a)
 	case 8:
 		return fmt.Sprintf("(!%s)", a)
 	case 9:
@@ -139,7 +142,11 @@ func (g *xgen) expr(d int) string {
 	case 19:
 		return fmt.Sprintf("--%s", g.lvalue(d-1))
 	case 20:
-		return fmt.Sprintf("(%s in %s)", g.index(d-1), g.pick(xarrays))
+		ix := g.index(d - 1)
+		if strings.Contains(ix, ", ") {
+			ix = "(" + ix + ")"
+		}
+		return fmt.Sprintf("(%s in %s)", ix, g.pick(xarrays))
 	case 21:
 		return fmt.Sprintf("length(%s)", g.pick(xarrays))
 	case 22, 23:
